@@ -3,6 +3,8 @@ import itertools
 
 import numpy as np
 
+from ..pool import caller_array
+
 from .. import casecheck
 from ..evaluator import ev_expr
 from .c15 import leaf_values, psi_from_leaves, make_fn
@@ -69,13 +71,13 @@ def replay(case):
                     break
             return out
         # general configurations
-        x = np.array(exp['x'], dtype=float)
+        x = caller_array(np.array(exp['x'], dtype=float), cfg['seed'])      # read-only data (Fortran-ordered for odd seeds)
         d, m = x.shape
         _basis = [[make_fn(f) for f in mode] for mode in cfg['basis']]
         basis = lambda: _basis        # one list of function objects for all calls (and the same data arrays: see C19_b)
-        sig = np.stack([np.array(s_, dtype=float) for s_ in exp['sig']], axis=2)        # d x d2 x m
-        b = np.array(exp['b'], dtype=float).T                                           # d x m
-        w = np.array(exp['w'], dtype=float) if cfg['rew'] else None
+        sig = caller_array(np.stack([np.array(s_, dtype=float) for s_ in exp['sig']], axis=2), cfg['seed'] + 1)     # d x d2 x m
+        b = caller_array(np.array(exp['b'], dtype=float).T, 0)                          # d x m (a transposed view)
+        w = caller_array(np.array(exp['w'], dtype=float), 0) if cfg['rew'] else None
         ww = w if w is not None else np.ones(m)
         psi = psi_from_leaves(leaf_values(exp['leaves']))
         P = psi.reshape(-1, m)
